@@ -12,21 +12,27 @@ from harness.common import Run, coq_R, frac
 
 META = dict(
     technique="Coq theorems over R (vectors as list R, any dimension) about definitions regenerated from the code: trajectories / "
-              "attachment / event terms by tracing the running node functions, compute_orthonormal_basis and the two "
-              "_center_xi_realizations by a fail-closed python-ast translation, the DAG wiring by introspection; "
+              "attachment / event terms by tracing the running node functions, compute_orthonormal_basis (every branch) and every "
+              "_center_xi_realizations of the source by a fail-closed python-ast translation, the DAG wiring by introspection; "
               "kernel-checked interval lemmas tie the generated definitions to real tensor outputs",
     level_text="Unbounded theorems: the gauge move (xi - m, log_v0 + m[, n_log_nu + m]) leaves the generated trajectory, attachment and "
                "Weibull event terms of logistic / linear / joint (with and without sources) unchanged for all reals; centred xi have "
                "mean 0; the Householder basis is invariant under d -> c d (c > 0) and, in any dimension, every kept column, every "
                "row of (B betas)^T and every row of sources (B betas)^T is orthogonal to G o d when (G o d)_0 <> 0 (always true "
                "for the directions the models pass); the translated re-centring scripts perform exactly the gauge move and touch "
-               "nothing else.  The model is regenerated from the source on every run.",
+               "nothing else.  Extension: every branch of compute_orthonormal_basis (scalar / diagonal / full metric, any strip_col, any "
+               "dimension): kept columns orthonormal for the canonical inner product whenever d^T G d <> 0, orthogonal to d for x^T G y "
+               "when (G d)_strip_col <> 0 (refuted without the proviso), scale invariance; every class defining "
+               "_center_xi_realizations (ast scan of leaspy/models) performs exactly the gauge move, n_log_nu included iff the model has "
+               "it; the mixture model's own copy leaves its trajectory / attachment unchanged, its sources centring is proved NOT to be "
+               "a gauge change.  The model is regenerated from the source on every run.",
     level_note="Trusted: Coq kernel; stdlib real-number axioms as printed; the tracer (harness/translate/formulas.py) and the two "
                "ast translators in harness/props/c10.py; Coq-Interval for the generated enclosure lemmas only; torch kernels "
                "(matmul, norm, sign, eye, cat, mean) modelled by hand in Formulas/Ortho.v / Gauge.v and compared entry-wise with "
-               "real outputs; float rounding is outside the theorems (oracle tolerances stated).  Not covered: the 0-D / 2-D "
-               "metric branches of compute_orthonormal_basis and strip_col <> 0 (unused by the models), the mixture model "
-               "(not in the property's quantifier), freshness of reads after the puts (C01).",
+               "real outputs; float rounding is outside the theorems (oracle tolerances stated).  Not covered: positive "
+               "definiteness of a 2-D metric (not checked by the code: (G d)_j <> 0 / d^T G d <> 0 stay hypotheses), the mixture model "
+               "inside real fits (not in the property's quantifier; its compute_sufficient_statistics also centres the sources), "
+               "freshness of reads after the puts (C01).",
     design_ref="DESIGN.md section 4 C10",
 )
 
@@ -1408,9 +1414,9 @@ def search_branches(run: Run, T, thorough: bool):
             # directed, oracle only: the pivot coordinate of G d dominates (either sign) — u = D - alpha e_j must not cancel
             # (alpha has the sign opposite to D_j); a reflection with the other sign is mathematically a Householder basis too but
             # loses the orthogonality in float32 exactly here
-            for sgn in (-1.0, 1.0):
+            for sgn, small in ((-1.0, 512), (1.0, 512), (-1.0, 8192), (1.0, 8192)):
                 strip = rng.randrange(n)
-                d = [rng.choice([-1, 1]) * rng.randint(1, 4) / 512 for _ in range(n)]
+                d = [rng.choice([-1, 1]) * rng.randint(1, 4) / small for _ in range(n)]
                 d[strip] = sgn * rng.randint(2, 8) / 2
                 G = 1.0 if nd == 0 else ([1.0] * n if nd == 1 else [[1.0 if i == j else 0.0 for j in range(n)] for i in range(n)])
                 if nd == 2:
@@ -1584,7 +1590,10 @@ def check(run: Run, tie: bool):
                 "state[name] = tensor to random dyadic values (styles: plain, wide ranges, all xi equal, first coordinate dominant; mean xi "
                 "shifted by 0, +-0.25, +-0.75, +-2), then the real compute_sufficient_statistics: model / nll_attach_ind / nll_attach_y_ind / "
                 "nll_attach_event_ind before vs after, mean xi after, rows of mixing_matrix and space_shifts against G o d recomputed from "
-                "the `metric` and `v0` the trajectory itself uses; (2) compute_orthonormal_basis on random directions (either sign, zero first coordinate) and metrics, dims 2-6; "
+                "the `metric` and `v0` the trajectory itself uses; (2) compute_orthonormal_basis on random directions (either sign, zero first coordinate) and metrics, dims 2-6, and (extension) "
+                "with a scalar / diagonal / full positive definite metric and a random strip_col (zero and dominant pivot coordinates "
+                "included): orthogonality and orthonormality of the returned columns; (2') mixture states through the mixture model's own "
+                "_center_xi_realizations; "
                 "(3) short real fits with a recording wrapper around compute_sufficient_statistics, same oracles at every iteration; "
                 "(4) Coq-Interval lemmas: entries of model, attachment sums, event terms, v0 / metric_sqr, orthonormal_basis, mixing_matrix, "
                 "space_shifts, re-centred xi / log_v0 / n_log_nu of those very states against the GENERATED definitions.  "
